@@ -138,8 +138,48 @@ def run(case, ctx):
         topo.check_topology(ctx, r.value, lines, version)
         if n == 0:
             after_mutations(ctx, r.value, lines, version, case.get("seed", 0))
+            edits_through_value_objects(ctx, r.value, version, case.get("seed", 0))
     if k in ("graph", "cell") and case.get("cell", [0])[0] % 97 == 0:
         ctx.sample({"version": version, "lines": lines if len(lines) < 12 else lines[:12]})
+
+
+def edits_through_value_objects(ctx, g, version, seed):
+    """an edge of the Gfa is edited in place through what its public fields return (the oriented
+    segment objects, the GFA1-style orientation attributes of E lines).  Either the edit is refused
+    (gfapy.Error) or the collections follow: whatever the Gfa then writes is judged like any graph."""
+    import random
+    from ..mon import obs as O
+    rng = random.Random(seed ^ 0x5bd1)
+    edges = [l for l in g.lines if l.record_type in ("L", "C", "E", "G") and not l.virtual]
+    if not edges:
+        return
+    for _ in range(2):
+        l = rng.choice(edges)
+        rt = l.record_type
+        ways = ["from_orient", "to_orient"] if rt in ("L", "C", "E") else []
+        if rt in ("E", "G"):
+            ways += ["sid1.orient", "sid2.orient", "sid1.invert"]
+        way = rng.choice(ways)
+
+        def edit():
+            if way in ("from_orient", "to_orient"):
+                setattr(l, way, "-" if getattr(l, way) == "+" else "+")
+            elif way == "sid1.invert":
+                l.sid1.invert()
+            else:
+                ol = getattr(l, way.split(".")[0])
+                ol.orient = "-" if ol.orient == "+" else "+"
+        before = O.safe_str(l)
+        rr = call(ctx, "edit of a connected edge: " + way, edit)
+        ctx.count("edits_through_value_objects")
+        if not rr.ok:
+            ctx.count("edits_through_value_objects_refused")
+            if O.safe_str(l) != before:
+                ctx.violation("refused-edit-changed-line/%s/%s" % (rt, way), "%r -> %r" % (before, O.safe_str(l)), prop="C08")
+            continue
+        text = [O.safe_str(x) for x in g.lines if not x.virtual and x.record_type not in ("H", "#")]
+        if topo.check_neighbourhoods(ctx, g, text, version, key_suffix="/after-edit-through-%s/%s" % (way, rt)):
+            return
 
 
 def after_mutations(ctx, g, lines, version, seed):
